@@ -276,7 +276,7 @@ func (e *Explorer) runPath(m *Machine, q queued) {
 	job := q.job
 	m.job = job
 	m.tc = NewTermCtx()
-	m.path = &PathState{trace: q.item.trace, names: map[string]int{}, reaches: map[string]bool{}, notes: map[string]string{}}
+	m.path = &PathState{trace: q.item.trace, names: map[string]int{}, reaches: map[string]bool{}, notes: map[string]string{}, known: map[*Term]bool{}, doms: map[*Term]*dom{}, scanned: map[*Term]bool{}}
 	if q.item.model != nil {
 		m.path.model = q.item.model
 		m.path.modelOK = true
